@@ -651,6 +651,15 @@ func (vc *VC) appendOp(fr *Frame, st *State, cc *ssa.CallCommon, args []Val, pos
 			srcArr.S, vc.idxAdd(sOff, mk("i", is)).S, tArr.S, vc.idxAdd(tOff, vc.idxSub(mk("i", is), sLen)).S, fresh.S)
 		vc.assume(st, mk(q1, sortBool))
 		vc.assume(st, mk(q2, sortBool))
+		// ground instances for the first few appended elements (headers are short): saves the solver the
+		// arithmetic matching of i against base+k
+		for k := int64(0); k < 9; k++ {
+			kt := vc.idxLit(k)
+			ev := tSelect(tArr, vc.idxAdd(tOff, kt))
+			g := vc.idxLt(kt, tLen)
+			vc.assume(st, tImp(g, tEq(tSelect(fresh, vc.idxAdd(sLen, kt)), ev)))
+			vc.assume(st, tImp(g, tEq(tSelect(inPlace, vc.idxAdd(base, kt)), ev)))
+		}
 	}
 	newRef := st.top
 	st.top = vc.define("top", mk(fmt.Sprintf("(+ %s 1)", newRef.S), sortRef))
